@@ -463,6 +463,44 @@ theorem model_follows_table :
       [1,1,1,1,1,1,1,0,0,0,1,1,1,1,0,0,0,0]) 0 = some (.ok [10]) ∧
     (∀ r ∈ repairedTable, (!r.safe && r.readBack) = false) := by decide
 
+/-- calls whose reads of the scratch cells are dead: flat `OneOf` / `NotField` (option errors are swallowed, option results
+    dropped) -/
+def deadReads : Call → Bool
+  | .wrap .oneOf _ _ _ => true
+  | .wrap .notField _ _ _ => true
+  | _ => false
+
+/-- `OneOf.__set__` / `NotField.__set__` on a field of the class itself are linearizable for EVERY schedule although they
+    rename option Field objects that other threads (and other fields) use: nothing ever reads the written name back
+    effectively.  (Their rows stay in the table - the writes ARE there - but by themselves they cannot change a result;
+    what the harness attributes to these sites is the race on the OWNER's name when the wrapper is nested under a
+    homogeneous collection, i.e. the extract_field_value finding.) -/
+theorem flat_oneOf_notField_linearizable (sh : Shared) (calls : List Call) (h : ∀ c ∈ calls, deadReads c = true) :
+    Linearizable sh (calls.map Call.prog) := by
+  apply conflict_free_linearizable
+  intro i j p q _ hp _ c _ hr
+  simp only [List.getElem?_map] at hp
+  cases hci : calls[i]? with
+  | none => simp [hci] at hp
+  | some ci =>
+    simp only [hci, Option.map_some, Option.some.injEq] at hp
+    subst hp
+    have hd := h ci (List.mem_of_getElem? hci)
+    cases ci with
+    | wrap kind name v os =>
+      cases kind with
+      | oneOf => simp [Call.prog, oneOf_reads] at hr
+      | notField => simp [Call.prog, notField_reads] at hr
+      | allOf => simp [deadReads] at hd
+      | anyOf => simp [deadReads] at hd
+    | _ => simp [deadReads] at hd
+
+/-- non-vacuity: two `OneOf` fields sharing their option objects, fully interleaved -/
+theorem flat_oneOf_example :
+    resultAt (run (Cfg.init sh0 [progOneOf (.const "a") 5 [(0, true), (1, false)], progOneOf (.const "b") 7 [(0, true), (1, false)]])
+      [0,1,0,1,0,1,0,1,0,1,0,1]) 0 = some (.ok [5]) ∧
+    deadReads (.wrap .oneOf "a" 5 [(0, true), (1, false)]) = true := by decide
+
 /-- the full statement is false -/
 theorem C20_statement_false : ¬ C20_statement := by
   intro h
